@@ -13,15 +13,18 @@ ID = 'C15'
 LEAN_TARGETS = ['TexSoupProofs.Properties.C15']
 THEOREMS = ['TexSoup.C15.' + n for n in (
     'step_refines', 'history_refines', 'edit_preserves_wellformed', 'edits_preserve_wellformed',
-    'setString_needs_group_argument')]
+    'setString_needs_group_argument', 'args_op_splice', 'list_op_is_setArgs', 'list_op_refines')]
 PARTIAL = ['"after every step search results, descendants, parent links and the text view are mutually consistent, inserted '
            'material included, and untargeted nodes are never altered, duplicated or lost": in the proofs this is C05 '
            'edit_preserves_others / C14 node_edit_preserves_others per step plus the fact that the model views are functions '
            'of the one tree value; on the implementation it is explored by the oracle after every step of every history '
            '(keys view-inconsistent, untargeted-changed), not proved',
            'TexArgs operations on a node\'s argument list inside a history (append/extend/insert/pop/remove/reverse/clear/'
-           'slice/permutation) are outside the vocabulary of the model driver: the oracle explores them against a plain '
-           'Python list of the same argument objects; the refinement TexArgs/list itself is C18']
+           'slice/permutation and the take-edit-put-back forms): on the model side such a step is .setArgs with the result of '
+           'the same operation on a plain Python list (lean/TexSoupModel/ArgsEdit.lean ListOp.apply: insert clamps, negative '
+           'indices, pop/remove of an absent element refuse; C15.list_op_is_setArgs, list_op_refines, args_op_splice), and '
+           'the correspondence compares model and implementation after every such step; that TexArgs itself (shadow list '
+           '.all included) refines the list operation is C18, not re-proved here']
 TRUSTED = ['hand-written model of the tree edits (lean/TexSoupModel/Edit.lean), tied to TexSoup/data.py by the '
            'correspondence run only',
            'correspondence harness (props/c15.py, lib_edit.py): structural paths, node acquisition through .contents by '
@@ -133,7 +136,7 @@ def _plan(ctx, rng, oracle=False, scale=1):
     max_len = ctx.pick(8, 30)
     per = 25
     for i in range(0, n, per):
-        units.append(('random', rng.getrandbits(32), min(per, n - i), max_len, 0.25 if oracle else 0))
+        units.append(('random', rng.getrandbits(32), min(per, n - i), max_len, 0.25))
     nt = ctx.pick(300, 1500) * scale
     for i in range(0, nt, per):
         units.append(('transplant', rng.getrandbits(32), min(per, nt - i), ctx.pick(4, 8)))
@@ -151,6 +154,7 @@ def _corr_unit(unit):
         n += 1
         stats['ops'] = stats.get('ops', 0) + len(h)
         stats['refused_steps'] = stats.get('refused_steps', 0) + a.count('FAIL')
+        stats['args_list_steps'] = stats.get('args_list_steps', 0) + sum(1 for o in h if o.startswith('aop '))
         _bucket(stats, h)
         if len(h) >= 2:
             hashes.append(_crc(doc, ';'.join(h)))
@@ -197,7 +201,11 @@ def correspondence(ctx):
               'ALL histories of length <= %d over lib_edit.alphabet (recomputed on the tree after every step: every non-root '
               'node as target of del / rep (0..2 new items) / ren / args / str, every index 0..len+1 of every container for '
               'ins, app) on the %d documents of lib_edit.BFS_DOCS%s; %d random histories of 1..%d ops (lib_edit.gen_ops: '
-              'del, rep, ins, app, ren, str, args with valid targets, ~10%% refused ops; ~12%% of the new nodes are taken '
+              'del, rep, ins, app, ren, str, args with valid targets, ~10%% refused ops; lib_edit.gen_history: 25%% of the '
+              'steps are operations on a node\'s argument list itself - append/extend/insert/pop/remove/reverse/clear/slice/'
+              'permutation and the own list put back after an in-place edit, negative and out-of-range indices included - '
+              'answered by the model as .setArgs of the plain-list result (ArgsEdit.lean), a list operation that raises must '
+              'be a refused step on both sides; ~12%% of the new nodes are taken '
               'from inside an argument / group / \\item of a snippet) on lib_edit.gen_doc documents; %d transplant histories '
               '(lib_edit.gen_transplant without copies: such a node is appended / inserted / put in place of a node, often '
               'next to a textual twin, and later steps delete / replace it at its new place); the snippet documents must '
